@@ -11,9 +11,9 @@ using vt::Ev;
 
 static const int NS = 10, NB = 4;
 static void do_deser(vt::Rng& g, int b);
-struct Group { std::vector<Item> items; long version = 0; };
+struct Group { std::vector<Item> items; long version = 0; bool crafted = false; };   // crafted: holds coupons no item can reproduce
 struct Obj { std::unique_ptr<hll_sketch> s; int grp = -1; bool restored = false; };
-struct Blob { bool live = false; std::vector<uint8_t> bytes; bool compact = false; int grp = -1; long version = 0; std::vector<Item> items; };
+struct Blob { bool crafted = false; bool live = false; std::vector<uint8_t> bytes; bool compact = false; int grp = -1; long version = 0; std::vector<Item> items; };
 
 static Obj obj[NS];
 static std::vector<Group> groups;
@@ -98,7 +98,7 @@ static void do_deser(vt::Rng& g, int b) {
   obj[dst].s = std::move(n); obj[dst].restored = true;
   // the restored object continues in lock-step with its source if the source has not moved on since
   if (groups[bl.grp].version == bl.version && !members(bl.grp).empty()) obj[dst].grp = bl.grp;
-  else obj[dst].grp = new_group(bl.items);
+  else { obj[dst].grp = new_group(bl.items); groups[obj[dst].grp].crafted = bl.crafted; }
   View dv = view(*obj[dst].s, false);
   Ev("Deser").i("blob", b).i("dst", dst).str("path", stream ? "stream" : "bytes").str("form", bl.compact ? "compact" : "updatable")
     .i("type", dv.type).i("mode", dv.mode).b("empty", obj[dst].s->is_empty()).i("consumed", consumed)
@@ -120,7 +120,7 @@ static int do_ser(vt::Rng& g, int src, int force_compact) {
   std::string st = os.str();
   Blob& bl = blob[b];
   bl.live = true; bl.compact = compact; bl.bytes.assign(bytes.begin() + hdr, bytes.end());
-  bl.grp = obj[src].grp; bl.version = groups[bl.grp].version; bl.items = groups[bl.grp].items;
+  bl.grp = obj[src].grp; bl.version = groups[bl.grp].version; bl.items = groups[bl.grp].items; bl.crafted = groups[bl.grp].crafted;
   View v = view(s, false);
   long long mx = v.type == 4 ? -1 : (long long)hll_sketch::get_max_updatable_serialization_bytes((uint8_t)v.lgk, tt(v.type));
   auto cn = canon(bl.bytes);
@@ -232,9 +232,23 @@ int main(int argc, char** argv) {
     int obs_pct = high ? 2 : (lgk >= 11 ? 1 : (lgk >= 9 ? 2 : 4));
     int g0 = new_group({});
     static const int T3[] = {4, 6, 8};
+    // crafted segment (segment 2 of a file and 15 % of the others, lg_k <= 10): the three lock-step sketches are deserialized from
+    // hand-written coupon-list images holding coupon values 32..63 (kxq1, aux exceptions far above cur-min, bit 5 of the 6-bit
+    // slots); two coupons share a slot so that the promotion replay overwrites a value >= 32 with a larger one
+    bool crafted = !high && lgk <= 10 && (seg == 2 || g.chance(15));
+    if (crafted) {
+      auto cs = craft_coupons(g, lgk);
+      for (int i = 0; i < 3; i++) {
+        auto img = craft_list_image(lgk, T3[i], cs);
+        obj[i].s.reset(new hll_sketch(hll_sketch::deserialize(img.data(), img.size()))); obj[i].grp = g0;
+        Ev("Craft").i("dst", i).i("lgk", lgk).i("type", T3[i]).raw("cs", coupons_json(cs)).raw("r", proj(i, *obj[i].s)).emit();
+      }
+      groups[g0].crafted = true;
+      emit_obs(members(g0));
+    } else
     for (int i = 0; i < 3; i++) { obj[i].s.reset(new hll_sketch(lgk, tt(T3[i]), false)); obj[i].grp = g0; emit_new(i); }
     int t3 = T3[g.below(3)];
-    obj[3].s.reset(new hll_sketch(lgk, tt(t3), true)); obj[3].grp = g0; emit_new(3);
+    obj[3].s.reset(new hll_sketch(lgk, tt(t3), true)); obj[3].grp = crafted ? new_group({}) : g0; emit_new(3);
     if (high) {
       int at = 4;
       for (int t : T3) if (t != t3) { obj[at].s.reset(new hll_sketch(lgk, tt(t), true)); obj[at].grp = g0; emit_new(at); at++; }
@@ -244,7 +258,7 @@ int main(int argc, char** argv) {
       emit_obs(members(g0));
     }
     // uniform fill first (small lg_k): always in segment 1 of a file, otherwise in 40 % of the small segments
-    if (!high && lgk <= 7 && (seg == 1 || g.chance(40))) {
+    if (!high && !crafted && lgk <= 7 && (seg == 1 || g.chance(40))) {
       if (t3 != 4 && !obj[4].s) { obj[4].s.reset(new hll_sketch(lgk, HLL_4, true)); obj[4].grp = g0; emit_new(4); }   // a start_full_size HLL_4 in any case
       uniform_fill(g, mined, pool, g0, lgk);
     }
@@ -275,14 +289,15 @@ int main(int argc, char** argv) {
         // one object continues alone (leaves its group)
         int i = 4 + (int)g.below(NS - 4);      // the four base sketches stay in lock-step for the whole segment
         if (!obj[i].s) continue;
-        if (members(obj[i].grp).size() > 1) { int ng = new_group(groups[obj[i].grp].items); obj[i].grp = ng; }
+        if (members(obj[i].grp).size() > 1) { bool cr = groups[obj[i].grp].crafted; int ng = new_group(groups[obj[i].grp].items); groups[ng].crafted = cr; obj[i].grp = ng; }
         Item it = g.chance(20) ? pool.pick(g, 12) : draw(g, wide);
         groups[obj[i].grp].items.push_back(it); groups[obj[i].grp].version++;
         emit_update({i}, it);
       } else if (op < 100 - 13 + obs_pct - serde2) {
         emit_obs(members(g.chance(70) ? g0 : obj[pick_live(g)].grp));
       } else if (op < 100 - 9 - serde2) {
-        continue;   // (reserved share: keeps the mix stable when obs_pct < 4)
+        if (g.chance(25)) { int i = pick_live(g); emit_bad_arg(*obj[i].s, "id", i, g); g_budget--; }
+        continue;   // (otherwise reserved share: keeps the mix stable when obs_pct < 4)
       } else if (op < 100 - 6 - serde2) {
         // conversion copy: joins the lock-step group of its source
         int src = pick_live(g), dst = pick_dst(g, src); int t = T3[g.below(3)];
@@ -305,7 +320,7 @@ int main(int argc, char** argv) {
         int i = pick_live(g);
         std::vector<int> ids;
         if (i < 4 || g.chance(60)) ids = members(obj[i].grp); else { ids = {i}; if (members(obj[i].grp).size() > 1) obj[i].grp = new_group({}); }
-        groups[obj[i].grp].items.clear(); groups[obj[i].grp].version++;
+        groups[obj[i].grp].items.clear(); groups[obj[i].grp].version++; groups[obj[i].grp].crafted = false;
         if (obj[i].grp == g0) planted = 0;     // the base group starts over: plant again in every phase
         for (int id : ids) {
           obj[id].s->reset();
@@ -319,7 +334,7 @@ int main(int argc, char** argv) {
         if (!g.chance(40)) continue;
         int gi = obj[pick_live(g)].grp;
         auto& items = groups[gi].items;
-        if (items.empty() || (long)items.size() > std::min(g_budget, 4 * k + 400)) continue;
+        if (groups[gi].crafted || items.empty() || (long)items.size() > std::min(g_budget, 4 * k + 400)) continue;
         auto ids = members(gi);
         int dst = pick_dst(g, -1);
         if (std::find(ids.begin(), ids.end(), dst) != ids.end()) continue;
